@@ -165,6 +165,10 @@ METHOD_FORMS = [
     'x = 1',
     'class D:\n\tdef m(self) -> None:\n\t\tpass',
     'pass',
+    'def m(self) -> None:\n\t"""doc"""\n\tself.x = 1',
+    '"""class doc"""',
+    'def __init__(self) -> None:\n\t"""doc"""\n\tself.x = 1\n\tself.y: int = 2',
+    'class D:\n\t"""inner doc"""\n\tx: int = 1',
 ]
 
 
@@ -175,6 +179,10 @@ def class_stmts():
         yield f'{d}class C:\n\tpass'
     for m in METHOD_FORMS:
         yield 'class C:\n' + indent(m)
+    for m in METHOD_FORMS:
+        yield 'class C:\n\t"""class doc"""\n' + indent(m)
+    yield 'def f() -> None:\n\t"""doc"""\n\treturn'
+    yield 'def f(a: int) -> int:\n\t"""doc"""\n\tdef g() -> int:\n\t\t"""inner"""\n\t\treturn a\n\treturn g()'
     for m1, m2 in itertools.product(METHOD_FORMS[:12], repeat=2):
         yield 'class C:\n' + indent(m1) + '\n' + indent(m2)
     # class nested in a function: its methods are methods, not closures
